@@ -62,6 +62,7 @@ struct BlockRecipe {
 void write_stream_header(Bytes &out, int check, uint8_t reserved_bits = 0);
 // appends the Block; computes the Check over `plain`; returns the unpadded size
 uint64_t write_block(Bytes &out, const BlockRecipe &r, int check, const Bytes &plain);
-void write_index_and_footer(Bytes &out, const std::vector<std::pair<uint64_t, uint64_t>> &records, int check, uint8_t reserved_bits = 0);
+void write_index_and_footer(Bytes &out, const std::vector<std::pair<uint64_t, uint64_t>> &records, int check, uint8_t reserved_bits = 0,
+		unsigned overlong = 0, unsigned overlong_extra = 0, bool as_if_minimal = false);
 
 }
